@@ -525,7 +525,11 @@ struct World {
             break;
         }
         case OP_COPY_CTOR: {
-            if (B.state != S_LIVE || a == b)
+            // the source may also be a default-constructed or moved-from field: copying such a
+            // field is legal (its value is unspecified, so the copy is never read, only destroyed
+            // or overwritten)
+            bool husk = B.state == S_DEFAULT || B.state == S_MOVED;
+            if ((B.state != S_LIVE && !husk) || a == b)
                 break;
             destroy_slot(A);
             const SlotOps &o = ops_of(B.stack);
@@ -533,16 +537,24 @@ struct World {
             int rcode = guarded(op, [&] { o.copy_construct(mem, B.obj); }, what, fired);
             executed = true;
             src_slot = b;
-            if (rcode) {
+            if (husk)
+                cnt.inc("probe.copy_of_default_or_moved_from_field");
+            if (rcode && husk && !fired) {
+                // No property promises that a field without a value can be copied: an exception
+                // is an acceptable answer (the device array gives it: it copies `size` bytes
+                // from a null device pointer). Memory safety and leak accounting still apply.
+                std::free(mem);
+                cnt.inc("observed.copy_of_valueless_field_threw");
+            } else if (rcode) {
                 std::free(mem);
                 if (!expect_no_throw(rcode, B.stack))
                     return;
                 cnt.inc("op_failed_by_fault");
             } else {
-                A.state = S_LIVE;
+                A.state = husk ? S_INDET : S_LIVE;
                 A.stack = B.stack;
                 A.obj = mem;
-                A.model = B.model;
+                A.model = husk ? ModelField() : B.model;
                 ++mutating;
             }
             break;
@@ -1792,6 +1804,22 @@ Plan gen_plan(const std::string &property, const std::string &profile, uint64_t 
             break;
         case OP_COPY_CTOR:
         case OP_MOVE_CTOR:
+            if (kind == OP_COPY_CTOR && rg.chance(0.08)) {
+                std::vector<int> husks;
+                for (int i = 0; i < p.nslots; ++i)
+                    if (gs[i].state == S_DEFAULT || gs[i].state == S_MOVED)
+                        husks.push_back(i);
+                if (!husks.empty()) {
+                    src = husks[rg.below(husks.size())];
+                    if (dst == src)
+                        dst = (dst + 1) % p.nslots;
+                    op.a = dst;
+                    op.b = src;
+                    gs[dst] = gs[src];
+                    gs[dst].state = S_INDET;
+                    break;
+                }
+            }
             if (dst == src)
                 dst = (dst + 1) % p.nslots;
             op.a = dst;
